@@ -37,6 +37,7 @@ class Result:
         self.symbols = {}       # file path -> {name: int}
         self.places = []        # (address, size, file, stmt) for every leaf statement, in image order
         self.labels = []        # (file, name, address)
+        self.listing = {}       # file path -> [(name as written, value)] for every ordinary symbol
 
 
 EXT_FORMS = ("idx", "idxd", "imm", "abs", "rel", "reld")
@@ -70,6 +71,7 @@ class Inst:
     def __init__(self, path, n):
         self.path = path
         self.n = n
+        self.spelling = {}    # lower-case name -> name as written at the definition
         self.private = {}     # lower-case name -> Node of the defining statement
         self.order = []       # names in definition order
         self.extern_all = False
@@ -155,6 +157,7 @@ class Asm:
                     node.dead = True
                 else:
                     inst.private[name] = node
+                    inst.spelling[name] = s["name"]
                     inst.order.append(name)
                     if s.get("export"):
                         self.export(name, inst)
@@ -183,6 +186,7 @@ class Asm:
                     node.dead = True
                 else:
                     inst.private[name] = node
+                    inst.spelling[name] = s["name"]
                     inst.order.append(name)
                     if s.get("export"):
                         self.export(name, inst)
@@ -574,6 +578,7 @@ class Asm:
                     except (AsmError, X.EvalError) as ex:
                         self.err(ex.kind)
                 r.symbols.setdefault(inst.path, {}).update(table)
+                r.listing.setdefault(inst.path, []).extend((inst.spelling[n], v) for n, v in table.items())
         except Cycle as ex:
             r.kind = "skip"
             r.why = str(ex)
